@@ -36,6 +36,15 @@ def run(ctx):
     if len(call) != 1 or call[0].target is None:
         raise AnchorLost("evaluate_expression_bool no longer converts the result of evaluate_expression_value")
     dl = call[0].dest[0]
+    # the conversion is the only way to a result: no path from the entry to a return that avoids it (a "fast path" deciding some operator
+    # shapes on its own — e.g. short-circuit AND / OR / XOR with null collapsed to false — re-implements three-valued logic differently)
+    rets1 = {bi for bi, blk in enumerate(eb.blocks) if blk["t"][0] == "ret"}
+    bypass = (rets1 & eb.reachable([0], avoid=[call[0].bb])) if call[0].bb != 0 else set()
+    others = [c for c in eb.calls() if c.name.startswith("nervusdb_query::") and c.name != EV]
+    ctx.instance("C19.1", "evaluate_expression_bool: returns reachable without evaluating the predicate as a value: %d; other evaluator calls: %s" % (len(bypass), [c.name.split("::")[-1] for c in others]))
+    ctx.oblige(not bypass and not others, "C19.1", "bool-of:bypass",
+               "evaluate_expression_bool can produce its result without converting the three-valued value of the whole predicate (%s): WHERE then "
+               "disagrees with NOT / IS NULL, which evaluate the same predicate as a value" % ([c.name.split("::")[-1] for c in others] or "early return"), eb.file)
     for name in dmap:
         cases = [("T", "T"), ("F", "F")] if name == "Bool" else [(("N" if name == "Null" else name), "F")]
         for a, want in cases:
